@@ -8,7 +8,9 @@ Oracles (no model): after a successful build every declared output of every sele
                every selected target holds on the workspace; a selected target whose check failed before the build was executed;
                a command that exits non-zero / times out makes the build fail.
 """
+import os
 from checks import _hist as H
+from checks import _hist2 as H2
 
 PROPERTY = "C14"
 LEVEL = "proof"
@@ -53,20 +55,32 @@ ASSUMPTIONS = [
 FAMILIES_QUICK = [("checks", 28, {}), ("checks", 11, {"minimal": True}), ("depchecks", 3, {}), ("depchecks", 3, {"minimal": True})]
 FAMILIES_THOROUGH = [("checks", 420, {}), ("checks", 165, {"minimal": True}), ("depchecks", 45, {}), ("depchecks", 45, {"minimal": True})]
 
+# round-c families (generators in _hist2.py)
+FAMILIES2_QUICK = [("post", 8, {}), ("post", 2, {"minimal": True})]
+GEN2 = {"post": H2.gen_post}
+
 
 def run(ctx):
     quick = ctx.tier == "quick"
     fams = FAMILIES_QUICK if quick else FAMILIES_THOROUGH
     hists = []
+    if os.environ.get("VERIF_DEV_ONLY_NEW"):
+        fams = []       # development only: run just the round-c families
     for fam, n, kw in fams:
         for _ in range(n):
             hists.append(H.gen_history(ctx.rng, fam, **kw))
+    for fam, n, kw in FAMILIES2_QUICK:
+        for _ in range(n if quick else n * 15):
+            hists.append(GEN2[fam](ctx.rng, **kw))
     ctx.coverage["rule"] = ("layered DAGs of 2-6 targets, 60% of them with an output check (`test -f ext/T.flag` or `cat` + expected_output), "
                             "the condition established by the target's own command or from outside; edits: destroy / establish / spoil the "
                             "condition, add / remove checks, command exits non-zero / exceeds its 300ms timeout / stops writing an output, "
                             "content and command changes; 1-3 checks per target mixing exit-status-only and expected_output checks in every order; outputs "
                             "missing first / middle / last incl. dir:: outputs that were never created; scripted cycle condition destroyed -> failing run -> "
-                            "condition re-established from outside; non-trivial = distinct history with >=2 builds, one executing and one with a hit")
+                            "condition re-established from outside; round-c family post (x10 quick, 2 of them minimal): multi-line expected_output, the checked state gains an "
+                            "extra line (from outside or written by the target's own command), a command that overwrites the state its own check tests while it runs for "
+                            "another reason (edited, tainted, no-cache) with the checks passing beforehand, a no-cache target nobody depends on that stops creating a "
+                            "declared output; non-trivial = distinct history with >=2 builds, one executing and one with a hit")
     recs = H.run_both(ctx, hists, "c14")
     if recs is None:
         return
